@@ -37,6 +37,7 @@ import (
 	"github.com/tucats/ego/internal/commands"
 	"github.com/tucats/ego/internal/defs"
 	"github.com/tucats/ego/internal/dsns"
+	"github.com/tucats/ego/internal/language/symbols"
 	"github.com/tucats/ego/internal/language/tokens"
 	"github.com/tucats/ego/internal/router"
 	"github.com/tucats/ego/internal/runtime/profile"
@@ -45,6 +46,8 @@ import (
 	"github.com/tucats/ego/internal/util"
 	"github.com/tucats/ego/internal/verifrt/report"
 )
+
+const selfTestPath = "/verif/c40/panics"
 
 const (
 	tokenKey  = "verif-c40-token-key-0123456789abcdefghijklmnopqrstuvwxyz"
@@ -73,6 +76,7 @@ type world struct {
 
 	userFile, dsnFile, dbFile, blacklist string
 	pristine                             map[string][]byte // file -> bytes
+	users                                map[string]defs.User
 	dbStamp                              string
 	logFile                              string
 }
@@ -115,8 +119,7 @@ func copyTree(src, dst string) error {
 // sealToken produces a native token in the server's v3 wire format (magic,
 // salt, nonce, AES-256-GCM of the JSON of tokens.Token; key = Argon2id(token
 // key, salt)) under one fixed salt.
-func sealToken(t tokens.Token) string {
-	key := argon2.IDKey([]byte(tokenKey), sealSalt, 2, 32*1024, 1, 32)
+func sealToken(key []byte, t tokens.Token) string {
 	b, _ := json.Marshal(t)
 
 	block, err := aes.NewCipher(key)
@@ -204,6 +207,13 @@ func newWorld(scratch string) *world {
 
 	defs.InstanceID = instance
 	router.Realm = "verif"
+
+	// what RunServer sets before it builds the route table
+	started := time.Now()
+	router.StartTime = started.Format(time.UnixDate)
+	router.ServerStartTime = &started
+	router.Version = "verif-c40"
+	symbols.RootSymbolTable.SetAlways(defs.UserCodeRunningVariable, true)
 
 	// --- user store
 	var err error
@@ -322,11 +332,28 @@ func newWorld(scratch string) *world {
 		}
 	}
 
-	// --- bearer tokens
-	now := time.Now().UTC().Round(0)
+	// --- a route of the harness's own whose handler panics: the run starts by
+	// checking that such a panic is seen (it is not part of the enumerated table)
+	w.rt.New(selfTestPath, func(session *router.Session, rw http.ResponseWriter, r *http.Request) int {
+		var list []int
 
-	for _, u := range []string{adminName, powerName, plainName} {
-		w.tokens[u] = sealToken(tokens.Token{Name: u, TokenID: uuid.New(), Created: now, Expires: now.Add(12 * time.Hour), AuthID: uuid.MustParse(instance)})
+		return list[len(r.URL.Path)]
+	}, http.MethodGet)
+
+	// --- bearer tokens
+	// (sealed once, by the parent: every derivation of the sealing key costs an Argon2id run)
+	if js := os.Getenv("C40_TOKENS"); js != "" {
+		must(json.Unmarshal([]byte(js), &w.tokens), "tokens handed down by the parent")
+	} else {
+		now := time.Now().UTC().Round(0)
+		key := argon2.IDKey([]byte(tokenKey), sealSalt, 2, 32*1024, 1, 32)
+
+		for _, u := range []string{adminName, powerName, plainName} {
+			w.tokens[u] = sealToken(key, tokens.Token{Name: u, TokenID: uuid.New(), Created: now, Expires: now.Add(12 * time.Hour), AuthID: uuid.MustParse(instance)})
+		}
+
+		js, _ := json.Marshal(w.tokens)
+		must(os.Setenv("C40_TOKENS", string(js)), "setenv")
 	}
 
 	// --- what "the same start" is
@@ -335,6 +362,12 @@ func newWorld(scratch string) *world {
 		must(err, "pristine copy")
 
 		w.pristine[f] = b
+	}
+
+	w.users = map[string]defs.User{}
+	for n, u := range auth.AuthService.ListUsers(false) {
+		u.Permissions = append([]string(nil), u.Permissions...)
+		w.users[n] = u
 	}
 
 	w.settings = map[string]string{}
@@ -420,8 +453,8 @@ func (w *world) restore() []string {
 		report.Fatal("panic recovery is enabled after restoring the settings")
 	}
 
-	// user store
-	if b, err := os.ReadFile(w.userFile); err != nil || !bytes.Equal(b, w.pristine[w.userFile]) || w.usersDiffer() {
+	// user store (the files carry a comment header with the time of the last flush)
+	if w.usersDiffer() {
 		must(os.WriteFile(w.userFile, w.pristine[w.userFile], 0o600), "user store restore")
 
 		svc, err := auth.NewFileService(w.userFile, "vbootstrap", "")
@@ -433,7 +466,7 @@ func (w *world) restore() []string {
 	}
 
 	// DSN store
-	if b, err := os.ReadFile(w.dsnFile); err != nil || !bytes.Equal(b, w.pristine[w.dsnFile]) {
+	if b, err := os.ReadFile(w.dsnFile); err != nil || stripComments(b) != stripComments(w.pristine[w.dsnFile]) {
 		must(os.WriteFile(w.dsnFile, w.pristine[w.dsnFile], 0o600), "DSN store restore")
 
 		svc, err := dsns.NewFileService(w.dsnFile)
@@ -477,23 +510,34 @@ func (w *world) restore() []string {
 }
 
 func (w *world) usersDiffer() bool {
-	var want map[string]defs.User
-
-	if json.Unmarshal(w.pristine[w.userFile], &want) != nil {
-		return true
-	}
-
 	have := auth.AuthService.ListUsers(false)
-	if len(have) != len(want) {
+	if len(have) != len(w.users) {
 		return true
 	}
 
-	for n, u := range want {
+	for n, u := range w.users {
 		h, ok := have[n]
-		if !ok || h.Password != u.Password || strings.Join(h.Permissions, ",") != strings.Join(u.Permissions, ",") {
+		if !ok || h.Password != u.Password || strings.Join(h.Permissions, ",") != strings.Join(u.Permissions, ",") ||
+			string(h.Passkeys) != string(u.Passkeys) || h.ID != u.ID || h.LastTokenAt != u.LastTokenAt {
 			return true
 		}
 	}
 
 	return false
+}
+
+// stripComments drops the comment lines of a store file.
+func stripComments(b []byte) string {
+	var sb strings.Builder
+
+	for _, l := range strings.Split(string(b), "\n") {
+		if t := strings.TrimSpace(l); t == "" || strings.HasPrefix(t, "//") || strings.HasPrefix(t, "#") {
+			continue
+		}
+
+		sb.WriteString(l)
+		sb.WriteByte('\n')
+	}
+
+	return sb.String()
 }
